@@ -82,38 +82,54 @@ import (
 const tp = "type.googleapis.com/google.crypto.tink."
 
 // modelled: key types whose parser and primitive constructor the model transcribes.
-var modelled = map[string]bool{
-	tp + "HmacKey": true, tp + "AesCmacKey": true, tp + "AesGcmKey": true, tp + "AesGcmSivKey": true,
-	tp + "AesCtrHmacAeadKey": true, tp + "AesSivKey": true, tp + "HkdfPrfKey": true, tp + "HmacPrfKey": true,
-	tp + "AesCmacPrfKey": true, tp + "EcdsaPublicKey": true, tp + "EcdsaPrivateKey": true,
-	tp + "RsaSsaPkcs1PublicKey": true, tp + "RsaSsaPssPublicKey": true,
-	tp + "ChaCha20Poly1305Key": true, tp + "XChaCha20Poly1305Key": true, tp + "XAesGcmKey": true,
-}
+var modelled = map[string]bool{}
 
 // unmodelled: every other type URL with a registered key parser (the list
 // unmodelled_urls of coq/model/UntrustedConsts.v).
 var unmodelled = map[string]bool{}
 
+// base16 / outside16: the split of the registered key types the C13 harness
+// (which shares this key bank and the model's parsers) was built on; C13
+// keeps treating every type outside the first 16 as outside its scope
+// (c13_outside_urls of coq/model/UntrustedConsts.v).
+var base16 = map[string]bool{}
+var outside16 = map[string]bool{}
+
 func init() {
-	for _, n := range []string{"AesCtrHmacStreamingKey",
-		"AesGcmHkdfStreamingKey", "EciesAeadHkdfPublicKey", "EciesAeadHkdfPrivateKey", "HpkePublicKey", "HpkePrivateKey",
-		"PrfBasedDeriverKey", "JwtEcdsaPublicKey", "JwtEcdsaPrivateKey", "JwtHmacKey", "JwtRsaSsaPkcs1PublicKey",
-		"JwtRsaSsaPkcs1PrivateKey", "JwtRsaSsaPssPublicKey", "JwtRsaSsaPssPrivateKey", "JwtMlDsaPublicKey",
-		"JwtMlDsaPrivateKey", "RsaSsaPkcs1PrivateKey", "RsaSsaPssPrivateKey", "Ed25519PublicKey", "Ed25519PrivateKey",
-		"MlDsaPublicKey", "MlDsaPrivateKey", "SlhDsaPublicKey", "SlhDsaPrivateKey", "CompositeMlDsaPublicKey",
-		"CompositeMlDsaPrivateKey"} {
+	base := []string{"HmacKey", "AesCmacKey", "AesGcmKey", "AesGcmSivKey", "AesCtrHmacAeadKey", "AesSivKey", "HkdfPrfKey",
+		"HmacPrfKey", "AesCmacPrfKey", "EcdsaPublicKey", "EcdsaPrivateKey", "RsaSsaPkcs1PublicKey", "RsaSsaPssPublicKey",
+		"ChaCha20Poly1305Key", "XChaCha20Poly1305Key", "XAesGcmKey"}
+	// newly modelled (round 2 of C14)
+	added := []string{"Ed25519PublicKey", "Ed25519PrivateKey", "RsaSsaPkcs1PrivateKey", "RsaSsaPssPrivateKey",
+		"EciesAeadHkdfPublicKey", "EciesAeadHkdfPrivateKey", "HpkePublicKey", "HpkePrivateKey",
+		"AesCtrHmacStreamingKey", "AesGcmHkdfStreamingKey", "JwtHmacKey", "JwtEcdsaPublicKey", "JwtEcdsaPrivateKey",
+		"JwtRsaSsaPkcs1PublicKey", "JwtRsaSsaPssPublicKey", "MlDsaPublicKey", "SlhDsaPublicKey", "SlhDsaPrivateKey",
+		"JwtRsaSsaPkcs1PrivateKey", "JwtRsaSsaPssPrivateKey", "JwtMlDsaPublicKey"}
+	rest := []string{"PrfBasedDeriverKey", "JwtMlDsaPrivateKey", "MlDsaPrivateKey", "CompositeMlDsaPublicKey", "CompositeMlDsaPrivateKey"}
+	for _, n := range base {
+		modelled[tp+n] = true
+		base16[tp+n] = true
+	}
+	for _, n := range added {
+		modelled[tp+n] = true
+		outside16[tp+n] = true
+	}
+	for _, n := range rest {
 		unmodelled[tp+n] = true
+		outside16[tp+n] = true
 	}
 }
 
 type bankKey struct {
 	name, class string
 	key         *tinkpb.Keyset_Key
-	mod         bool
+	mod         bool // a modelled type
+	mod16       bool // one of the 16 types of C13's scope
 }
 
 var bank []bankKey
-var bankMod []int // indices of bank keys of modelled types
+var bankMod []int  // indices of bank keys of modelled types
+var bankMod2 []int // ... of the types modelled in the second round
 
 func init() {
 	for _, d := range bankData {
@@ -128,8 +144,11 @@ func init() {
 		m := modelled[k.GetKeyData().GetTypeUrl()]
 		if m {
 			bankMod = append(bankMod, len(bank))
+			if !base16[k.GetKeyData().GetTypeUrl()] {
+				bankMod2 = append(bankMod2, len(bank))
+			}
 		}
-		bank = append(bank, bankKey{d.name, d.class, k, m})
+		bank = append(bank, bankKey{d.name, d.class, k, m, base16[k.GetKeyData().GetTypeUrl()]})
 	}
 }
 
